@@ -41,7 +41,7 @@ theorem applyRecs_lines (branch : Bool) (recs : List Rec) (a a' : Acc)
     | brda l exc blk br taken =>
       have e : daPairs (.brda l exc blk br taken :: rs) = daPairs rs := by simp [daPairs]
       rw [e]; refine ih _ _ ?_
-      cases branch <;> cases exc <;> exact h
+      cases branch <;> exact h
     | other txt =>
       have e : daPairs (.other txt :: rs) = daPairs rs := by simp [daPairs]
       rw [e]; exact ih _ _ h
@@ -56,65 +56,33 @@ theorem brdaFold_cons (m : List (Nat × List Bool)) (r : Nat × Nat × Bool) (rs
     brdaFold m (r :: rs) = brdaFold (addBranch m r.1 r.2.1 r.2.2) rs := rfl
 
 theorem applyRecs_branches_on (recs : List Rec) (a : Acc) :
-    (applyRecs true a recs).cur.branches = brdaFold a.cur.branches (readTriples recs) := by
+    (applyRecs true a recs).cur.branches = brdaFold a.cur.branches (brdaTriples recs) := by
   induction recs generalizing a with
   | nil => rfl
   | cons r rs ih =>
     rw [applyRecs_cons, ih]
     cases r with
     | brda l exc blk br taken =>
-      have e : readTriples (.brda l exc blk br taken :: rs)
-          = (if exc then (l.val, blk.val, true) else (l.val, br.val, takenOf taken)) :: readTriples rs := by
-        simp [readTriples]
-      rw [e, brdaFold_cons]
-      cases exc <;> rfl
+      have e : brdaTriples (.brda l exc blk br taken :: rs) = (l.val, br.val, takenOf taken) :: brdaTriples rs := by
+        simp [brdaTriples]
+      rw [e, brdaFold_cons]; rfl
     | fnda c name =>
-      have e : readTriples (.fnda c name :: rs) = readTriples rs := by simp [readTriples]
+      have e : brdaTriples (.fnda c name :: rs) = brdaTriples rs := by simp [brdaTriples]
       rw [e]; congr 1
       simp only [applyRec, commitFnda]; split <;> rfl
-    | da l c ck => have e : readTriples (.da l c ck :: rs) = readTriples rs := by simp [readTriples]
+    | da l c ck => have e : brdaTriples (.da l c ck :: rs) = brdaTriples rs := by simp [brdaTriples]
                    rw [e]; rfl
-    | daNeg l txt => have e : readTriples (.daNeg l txt :: rs) = readTriples rs := by simp [readTriples]
+    | daNeg l txt => have e : brdaTriples (.daNeg l txt :: rs) = brdaTriples rs := by simp [brdaTriples]
                      rw [e]; rfl
-    | fn s name => have e : readTriples (.fn s name :: rs) = readTriples rs := by simp [readTriples]
+    | fn s name => have e : brdaTriples (.fn s name :: rs) = brdaTriples rs := by simp [brdaTriples]
                    rw [e]; rfl
-    | other txt => have e : readTriples (.other txt :: rs) = readTriples rs := by simp [readTriples]
+    | other txt => have e : brdaTriples (.other txt :: rs) = brdaTriples rs := by simp [brdaTriples]
                    rw [e]; rfl
     | otherKeyed key d txt =>
-      have e : readTriples (.otherKeyed key d txt :: rs) = readTriples rs := by simp [readTriples]
+      have e : brdaTriples (.otherKeyed key d txt :: rs) = brdaTriples rs := by simp [brdaTriples]
       rw [e]; rfl
-    | blank => have e : readTriples (.blank :: rs) = readTriples rs := by simp [readTriples]
+    | blank => have e : brdaTriples (.blank :: rs) = brdaTriples rs := by simp [brdaTriples]
                rw [e]; rfl
-
-/-- without exception branch records the reader's triples are what the records say -/
-theorem readTriples_eq_brdaTriples (recs : List Rec) (h : noExc recs) :
-    readTriples recs = brdaTriples recs := by
-  induction recs with
-  | nil => rfl
-  | cons r rs ih =>
-    have ih' := ih fun r' hr' => h r' (List.mem_cons_of_mem _ hr')
-    cases r with
-    | brda l exc blk br taken =>
-      have hx : exc = false := h (.brda l exc blk br taken) (by simp)
-      subst hx
-      simp only [readTriples, brdaTriples, List.filterMap_cons] at ih' ⊢
-      rw [ih']
-      rfl
-    | da l c ck => simpa [readTriples, brdaTriples] using ih'
-    | daNeg l txt => simpa [readTriples, brdaTriples] using ih'
-    | fn s name => simpa [readTriples, brdaTriples] using ih'
-    | fnda c name => simpa [readTriples, brdaTriples] using ih'
-    | other txt => simpa [readTriples, brdaTriples] using ih'
-    | otherKeyed key d txt => simpa [readTriples, brdaTriples] using ih'
-    | blank => simpa [readTriples, brdaTriples] using ih'
-
-/-- the reader's view of a section is what the section says when there is no exception branch
-record, or when branch parsing is off -/
-theorem semRead_eq_sem (branch : Bool) (s : Section) (h : branch = true → noExc s.recs) :
-    semRead branch s = sem branch s := by
-  cases branch with
-  | false => rfl
-  | true => simp only [semRead, sem, if_true, readTriples_eq_brdaTriples s.recs (h rfl)]
 
 theorem applyRecs_branches_off (recs : List Rec) (a : Acc) :
     (applyRecs false a recs).cur.branches = a.cur.branches := by
@@ -344,8 +312,7 @@ theorem pendInv_step (branch : Bool) (pre : List Rec) (a : Acc) (r : Rec) (h : P
       (fun k => by simp [fnExecuted]) rfl rfl
   | brda l exc blk br taken =>
     exact inert (by simp [fnNames, fnDecls]) (by simp [fndaNames])
-      (fun k => by simp [fnExecuted]) (by cases branch <;> cases exc <;> rfl)
-      (by cases branch <;> cases exc <;> rfl)
+      (fun k => by simp [fnExecuted]) (by cases branch <;> rfl) (by cases branch <;> rfl)
   | other txt =>
     exact inert (by simp [fnNames, fnDecls]) (by simp [fndaNames])
       (fun k => by simp [fnExecuted]) rfl rfl
@@ -427,7 +394,7 @@ theorem fnTable_step (branch : Bool) (pre : List Rec) (a : Acc) (r : Rec) (h : P
     exact inert (by simp [fnDecls]) (fun k => by simp [fnExecuted]) rfl
   | brda l exc blk br taken =>
     exact inert (by simp [fnDecls]) (fun k => by simp [fnExecuted])
-      (by cases branch <;> cases exc <;> rfl)
+      (by cases branch <;> rfl)
   | other txt =>
     exact inert (by simp [fnDecls]) (fun k => by simp [fnExecuted]) rfl
   | otherKeyed key d txt =>
@@ -488,82 +455,62 @@ theorem section_functions (branch : Bool) (R : List (Bytes × Cov)) (s : Section
   simpa [semFunctions, fnTable] using this
 
 theorem section_cur (branch : Bool) (R : List (Bytes × Cov)) (s : Section) (hn : (fnNames s.recs).Nodup) :
-    (applyRecs branch (sectionStart R s.sf) s.recs).cur = semRead branch s := by
+    (applyRecs branch (sectionStart R s.sf) s.recs).cur = sem branch s := by
   have hl := applyRecs_lines branch s.recs (sectionStart R s.sf) {} rfl
   have hf := section_functions branch R s hn
   have hb : (applyRecs branch (sectionStart R s.sf) s.recs).cur.branches
-      = if branch then brdaFold [] (readTriples s.recs) else [] := by
+      = if branch then brdaFold [] (brdaTriples s.recs) else [] := by
     cases branch
     · exact applyRecs_branches_off s.recs _
     · exact applyRecs_branches_on s.recs _
   generalize (applyRecs branch (sectionStart R s.sf) s.recs).cur = c at hl hf hb
   cases c
   simp only at hl hf hb
-  simp [semRead, hl, hf, hb]
+  simp [sem, hl, hf, hb]
 
-/-- the record-by-record reading of a section whose functions are in order is the reader's view of it -/
-theorem semSection_eq_semRead (branch : Bool) (s : Section) (h : s.FnOK) :
-    semSection branch s = some (utf8Lossy s.sf, semRead branch s) := by
+/-- the record-by-record reading of a well-formed section is what the section says -/
+theorem semSection_eq_sem (branch : Bool) (s : Section) (h : s.FnOK) :
+    semSection branch s = some (utf8Lossy s.sf, sem branch s) := by
   have hp := section_pending_nil branch [] s h.2
   have hc := section_cur branch [] s h.1
   simp only [sectionStart] at hp hc
   simp only [semSection, hp, hc]
   rfl
 
-theorem semAll_eq_semRead (branch : Bool) (secs : List Section) (h : ∀ s ∈ secs, s.FnOK) :
-    semAll branch secs = some (secs.map fun s => (utf8Lossy s.sf, semRead branch s)) := by
+theorem semAll_eq_sem (branch : Bool) (secs : List Section) (h : ∀ s ∈ secs, s.FnOK) :
+    semAll branch secs = some (secs.map fun s => (utf8Lossy s.sf, sem branch s)) := by
   induction secs with
   | nil => rfl
   | cons s ss ih =>
-    simp only [semAll, semSection_eq_semRead branch s (h s (by simp)),
+    simp only [semAll, semSection_eq_sem branch s (h s (by simp)),
       ih fun s' hs' => h s' (List.mem_cons_of_mem _ hs')]
     rfl
 
-/-- **What the reader returns for every lcov tracefile, 2.x exception branches included**: one
-record per section, the reader's view `semRead` of it. -/
-theorem parse_render_read (branch : Bool) (eol : Bytes) (heol : eol = [LF] ∨ eol = [CR, LF])
-    (secs : List Section) (hs : ∀ s ∈ secs, s.WellFormedLcov2) :
-    parse branch (render eol secs) = .ok (secs.map fun s => (utf8Lossy s.sf, semRead branch s)) := by
+/-- **Fidelity.** -/
+theorem parse_render (branch : Bool) (eol : Bytes) (heol : eol = [LF] ∨ eol = [CR, LF])
+    (secs : List Section) (hs : ∀ s ∈ secs, s.WellFormed) :
+    parse branch (render eol secs) = .ok (secs.map fun s => (utf8Lossy s.sf, sem branch s)) := by
   have := file_bytes branch eol heol secs (fun s h => (hs s h).1) _
-    (semAll_eq_semRead branch secs fun s h => (hs s h).2) [] none
+    (semAll_eq_sem branch secs fun s h => (hs s h).2) [] none
   unfold parse
   have e : ({} : St) = ⟨.dispatch, { results := [], curFile := none, cur := {}, pending := [] }⟩ := rfl
   rw [e, this]
   simp [finish]
 
-/-- **Fidelity** under the guard "no exception branch record, or branch parsing off". -/
-theorem parse_render_guarded (branch : Bool) (eol : Bytes) (heol : eol = [LF] ∨ eol = [CR, LF])
-    (secs : List Section) (hs : ∀ s ∈ secs, s.WellFormedLcov2)
-    (hx : branch = true → ∀ s ∈ secs, noExc s.recs) :
-    parse branch (render eol secs) = .ok (secs.map fun s => (utf8Lossy s.sf, sem branch s)) := by
-  rw [parse_render_read branch eol heol secs hs]
-  congr 1
-  apply List.map_congr_left
-  intro s hsm
-  rw [semRead_eq_sem branch s fun hb => hx hb s hsm]
-
-theorem wellFormed_lcov2 {s : Section} (h : s.WellFormed) : s.WellFormedLcov2 := ⟨h.1, h.2.1⟩
-
-/-- **Fidelity.** -/
-theorem parse_render (branch : Bool) (eol : Bytes) (heol : eol = [LF] ∨ eol = [CR, LF])
-    (secs : List Section) (hs : ∀ s ∈ secs, s.WellFormed) :
-    parse branch (render eol secs) = .ok (secs.map fun s => (utf8Lossy s.sf, sem branch s)) :=
-  parse_render_guarded branch eol heol secs (fun s h => wellFormed_lcov2 (hs s h)) fun _ s h => (hs s h).2.2
-
 /-- an FNDA record whose function is declared nowhere in its section: the reader answers the error
 "FN record missing" at the `end_of_record` of that section, whatever follows -/
 theorem parse_fnda_without_fn (branch : Bool) (eol : Bytes) (heol : eol = [LF] ∨ eol = [CR, LF])
-    (secs : List Section) (hs : ∀ s ∈ secs, s.WellFormedLcov2) (s : Section) (hw : s.WF) (nm : Bytes)
+    (secs : List Section) (hs : ∀ s ∈ secs, s.WellFormed) (s : Section) (hw : s.WF) (nm : Bytes)
     (h1 : nm ∈ fndaNames s.recs) (h2 : nm ∉ fnNames s.recs) (rest : Bytes) :
     parse branch (render eol secs ++ renderSection eol s ++ rest) = .err "Parse" := by
   have hfile := file_bytes branch eol heol secs (fun s h => (hs s h).1) _
-    (semAll_eq_semRead branch secs fun s h => (hs s h).2) [] none
+    (semAll_eq_sem branch secs fun s h => (hs s h).2) [] none
   have e : ({} : St) = ⟨.dispatch, { results := [], curFile := none, cur := {}, pending := [] }⟩ := rfl
   unfold parse
   rw [List.append_assoc, run_append, e, hfile, renderSection_split, List.append_assoc, run_append,
     section_body_bytes branch eol heol _ _ s hw]
-  have hp := section_pending_ne_nil branch ([] ++ secs.map fun s => (utf8Lossy s.sf, semRead branch s)) s nm h1 h2
-  have hcf := (applyRecs_frame branch (sectionStart ([] ++ secs.map fun s => (utf8Lossy s.sf, semRead branch s)) s.sf)
+  have hp := section_pending_ne_nil branch ([] ++ secs.map fun s => (utf8Lossy s.sf, sem branch s)) s nm h1 h2
+  have hcf := (applyRecs_frame branch (sectionStart ([] ++ secs.map fun s => (utf8Lossy s.sf, sem branch s)) s.sf)
     s.recs).2
   simp only [sectionStart] at hp hcf
   have e2 : [101] ++ s.eor ++ [LF] ++ rest = 101 :: (s.eor ++ [LF] ++ rest) := by simp
@@ -613,14 +560,9 @@ theorem fnOK_perm (s : Section) (recs' : List Rec) (p : s.recs.Perm recs') (h : 
   refine ⟨pn.nodup_iff.mp h.1, fun nm hnm => ?_⟩
   exact pn.mem_iff.mp (h.2 nm (pd.mem_iff.mpr hnm))
 
-theorem wellFormedLcov2_perm (s : Section) (recs' : List Rec) (p : s.recs.Perm recs')
-    (h : s.WellFormedLcov2) : ({ s with recs := recs' } : Section).WellFormedLcov2 :=
-  ⟨⟨h.1.1, h.1.2.1, fun r hr => h.1.2.2.1 r (p.mem_iff.mpr hr), h.1.2.2.2⟩, fnOK_perm s recs' p h.2⟩
-
 theorem wellFormed_perm (s : Section) (recs' : List Rec) (p : s.recs.Perm recs') (h : s.WellFormed) :
     ({ s with recs := recs' } : Section).WellFormed :=
-  ⟨(wellFormedLcov2_perm s recs' p (wellFormed_lcov2 h)).1, fnOK_perm s recs' p h.2.1,
-    fun r hr => h.2.2 r (p.mem_iff.mpr hr)⟩
+  ⟨⟨h.1.1, h.1.2.1, fun r hr => h.1.2.2.1 r (p.mem_iff.mpr hr), h.1.2.2.2⟩, fnOK_perm s recs' p h.2⟩
 
 /-- names that decoding leaves alone: the reported function names are the written ones -/
 theorem fnNames_eq_written (recs : List Rec)
